@@ -48,6 +48,26 @@ D = {
            "--mode=check on stdin with a UTF-16 BOM or a non-UTF-8 configured encoding plus a non-ASCII character"),
  "C16-2": ("C16", "file_formatter.rs exec_format: read buffer cleared at the end instead of the top; a decode failure leaves bytes for the next file of the worker",
            "multi-file run with an undecodable file followed by a decodable one on the same worker"),
+ "C09-1": ("C09", "lexer.rs text_literal: memchr3 -> memchr2, a CR no longer ends an unterminated literal; the CR is swallowed into the token",
+           "CRLF (or mixed) input with a quote-delimited literal left unclosed at the end of a line"),
+ "C09-2": ("C09", "multiline_strings.rs: early `continue` when the literal already has its target indentation; terminators are then not normalised",
+           "a multi-line string already at its target indentation whose interior line endings differ from the configured line_ending"),
+ "C10-1": ("C10", "multiline_strings.rs: 'already in place' fast path compares byte lengths of old and new indentation instead of their text",
+           "multi-line literal with aligned quotes whose old indentation has as many bytes as the new one but other characters (N spaces vs N tabs)"),
+ "C10-2": ("C10", "front-end lib.rs: continuation width computed with a plain u8 multiplication instead of saturating_mul",
+           "use_tabs=false, tab_width x continuation_indents >= 256 and at least one continuation line"),
+ "C14-1": ("C14", "parser.rs parse_file: end-directive arm guarded by directive_level > 0; an unmatched {$endif} gets no directive line",
+           "an unbalanced {$endif} / {$ifend}"),
+ "C14-2": ("C14", "parser.rs skip_token also steps over trailing inline comments without adding them to a line",
+           "a compiler directive strictly between conditional directives followed by a same-line comment"),
+ "C17-1": ("C17", "file_formatter.rs decode_file: ASCII fast path borrows the payload as str; ISO-2022-JP (all ASCII bytes plus escapes) bypasses the decoder",
+           "encoding=ISO-2022-JP and at least one non-ASCII character"),
+ "C17-2": ("C17", "file_formatter.rs: hand-rolled UTF-16 decoder with chunks_exact(2) silently drops a trailing odd byte",
+           "UTF-16 (by BOM) input with an odd number of payload bytes"),
+ "C19-1": ("C19", "command_line.rs find_config_file: ancestors().filter(is_file).last() picks the farthest pasfmt.toml",
+           "two pasfmt.toml files in the ancestor chain that differ, no --config-file"),
+ "C19-2": ("C19", "command_line.rs: TOML format hint dropped; --config-file with a non-.toml name is rejected",
+           "--config-file pointing at a regular file whose extension is not toml"),
  "C18-1": ("C18", "file_formatter.rs exec_format: input_buf reset only on the success path (clear + shrink after result_operation)",
            "a file that fails after bytes were read (undecodable), followed by another file on the same worker"),
  "C18-2": ("C18", "file_formatter.rs expand_paths: de-duplicates paths case-insensitively",
